@@ -548,6 +548,20 @@ impl Prop for P {
         let jops: Vec<RegOp> = v12.data().iter_asm().collect();
         let rv = run_fn("vm12", v12, &jops, &b, case, roots.len(), cx)?;
         let rj = run_fn("jit", &jf, &jops, &b, case, roots.len(), cx)?;
+        // once more with the evaluators' own arrays (choices, outputs) bounded
+        // by PROT_NONE pages: a choice written past the end of the trace
+        // array, or an output past the requested count, kills the worker
+        if case.slice_len % 3 != 1 {
+            let rg = crate::galloc::with_guard(case.slice_len % 3 == 0, || {
+                run_fn("jit", &jf, &jops, &b, case, roots.len(), cx)
+            })?;
+            cx.ev.count("cases_repeated_with_guard_page_evaluator_arrays");
+            ensure!(
+                rg.len() == rj.len() && rg.iter().zip(&rj).all(|(a, b)| a.1 == b.1),
+                "guarded-evaluator-changes-trace",
+                "JIT point traces differ between a fresh evaluator with guard-page arrays and an ordinary one"
+            );
+        }
         // same trace for the same point, clause by clause, wherever the two
         // evaluators saw bit-identical operands
         for (pi, ((bv, tv), (bj, tj))) in rv.iter().zip(&rj).enumerate() {
